@@ -13,7 +13,7 @@ func tierN(ctx *Ctx, quick, thorough int) int {
 }
 
 var baseWeights = Weights{
-	"write": 14, "rewrite-same": 2, "touch": 1, "rmfile": 4, "rmdir": 2, "mkdir": 1,
+	"write": 14, "write-old": 2, "rewrite-same": 2, "touch": 1, "rmfile": 4, "rmdir": 2, "mkdir": 1,
 	"add": 12, "add-all": 3, "rm": 4, "commit": 10, "branch": 2, "branch-rename": 1, "branch-delete": 1, "branch-list": 1,
 	"switch": 2, "switch-c": 1, "reset": 3, "restore": 4, "update-ref": 1, "config": 1, "status": 3, "log": 1, "reflog": 1,
 	"ls-files": 1, "rev-parse": 1, "cat-file": 1, "write-tree": 1, "hash-object": 1, "junk": 2,
@@ -117,7 +117,7 @@ func init() {
 	checks["C14"] = histCheck("C14", []string{"C14.log_chain", "C14.log_nonpos"}, histRule,
 		func(ctx *Ctx) *HistCfg {
 			return &HistCfg{Prop: "C14", Cases: tierN(ctx, 150, 1500), MinSteps: 15, MaxSteps: 60,
-				W:       weights(Weights{"commit": 25, "log": 14, "add-all": 10, "write": 20, "reset": 4, "switch": 3, "switch-c": 3, "restore": 0, "rm": 1, "junk": 0}),
+				W:       weights(Weights{"commit": 25, "log": 14, "add-all": 10, "write": 14, "write-old": 10, "reset": 4, "switch": 3, "switch-c": 3, "restore": 0, "rm": 1, "junk": 0}),
 				Oracles: []HistOracle{orC14}}
 		})
 	checks["C17"] = histCheck("C17", []string{"C17.matches_dir", "C17.matches_ext", "C17.nothing_hidden_without_ignore", "C17.meta_always"}, histRule,
